@@ -405,6 +405,16 @@ func (p *inst) Handler(ctx context.Context, n string, args []interface{}, next c
 	return r, err
 }
 
+// other is a plugin type of its own with the shape of inst.
+type other struct{ name string }
+
+func (p *other) Handler(ctx context.Context, n string, args []interface{}, next core.NextInvokeHandler) ([]interface{}, error) {
+	rec("enter " + p.name)
+	r, err := next(ctx, n, args)
+	rec("leave " + p.name)
+	return r, err
+}
+
 func aliasing(shard, nshards int, thorough bool) h.SeqResult {
 	var res h.SeqResult
 	if shard != 0 {
@@ -417,10 +427,15 @@ func aliasing(shard, nshards int, thorough bool) h.SeqResult {
 	}
 	i1, i2 := &inst{"inst1"}, &inst{"inst2"}
 	f1, f2 := mkInv("clo1"), mkInv("clo2")
+	o2 := &other{"other2"}
 	vars := []variant{
 		{"method-values-of-two-instances", i1.Handler, i2.Handler, i1.Handler},
 		{"two-instances-of-one-plugin-type", i1, i2, i1},
 		{"closures-of-one-function-literal", f1, f2, f1},
+		{"plugin-objects-of-two-types", i1, o2, i1},
+		{"plugin-object-that-was-never-installed", i2, i2, &inst{"absent"}},
+		{"plugin-object-of-another-type-that-was-never-installed", o2, o2, &inst{"absent"}},
+		{"closure-that-was-never-installed", f2, f2, mkInv("absent")},
 	}
 	for _, v := range vars {
 		vs.Seq(vs.Config{}, func() {
@@ -430,8 +445,14 @@ func aliasing(shard, nshards int, thorough bool) h.SeqResult {
 			client.Unuse(v.ua)
 			got, _ := call(client)
 			res.Transitions += 3
-			names := map[string]string{"method-values-of-two-instances": "inst2", "two-instances-of-one-plugin-type": "inst2", "closures-of-one-function-literal": "clo2"}
+			names := map[string]string{"method-values-of-two-instances": "inst2", "two-instances-of-one-plugin-type": "inst2", "closures-of-one-function-literal": "clo2",
+				"plugin-objects-of-two-types": "other2", "plugin-object-that-was-never-installed": "inst2", "plugin-object-of-another-type-that-was-never-installed": "other2", "closure-that-was-never-installed": "clo2"}
 			want := []string{"enter " + names[v.name], "fn w", "leave " + names[v.name]}
+			if strings.Contains(v.name, "never-installed") {
+				// a and b are one handler installed twice: it runs twice, the Unuse of the absent one changes nothing
+				n := names[v.name]
+				want = []string{"enter " + n, "enter " + n, "fn w", "leave " + n, "leave " + n}
+			}
 			if strings.Join(got, ";") != strings.Join(want, ";") {
 				res.Violate("onion|unuse-removes-another-handler|"+v.name, fmt.Sprintf("Use(a, b); Unuse(a) with %s: the next call's trace is %v, expected %v (b is still installed)", v.name, got, want),
 					map[string]interface{}{"kind": "aliasing", "variant": v.name})
